@@ -269,6 +269,385 @@ def sessions(rng, n):
     return out
 
 
+# ---- concurrent, pending and long requests (ctl.conc) ------------------------------------------------
+OP_OPEN, OP_WRITE, OP_FIN, OP_AWAIT, OP_SHUTDOWN, OP_RELEASE, OP_DROP, OP_REQ, OP_SEND, OP_PEEK = range(10)
+
+
+def st(op, k=0, b=None):
+    return xl(xn(op), xn(k)) if b is None else xl(xn(op), xn(k), xb(b))
+
+
+def conc(steps, kind):
+    return Case("ctl.conc", xlist(steps), None, {"kind": kind})
+
+
+# every length constant of the code path: String::with_capacity(16) (utils), read_to_end's 32-byte probe (tokio),
+# Vec::with_capacity(4 * 1024) and the 2 KiB uring reply buffer (signal), and the powers of two around them;
+# 64 is the MAX_LOGGED of the regression patch
+SMALL_BOUNDS = [15, 16, 17, 31, 32, 33, 63, 64, 65, 127, 128, 129, 255, 256, 257, 1023, 1024, 1025, 2047, 2048, 2049, 4095, 4096, 4097]
+BIG_BOUNDS = [8191, 8192, 8193, 65535, 65536, 65537]
+CHARS = {1: ["a", "~"], 2: ["ö", "߿", "\u0080"], 3: ["€", "￿", "ࠀ"], 4: ["\U0001f600", "\U0010ffff", "\U00010000"]}
+STRADDLES = [(1, 0), (2, 1), (3, 1), (3, 2), (4, 1), (4, 2), (4, 3)]      # (width of the character, bytes of it before the boundary)
+BAD_AT = [b"\xc3", b"\xe2\x82", b"\xf0\x9f\x98", b"\x80", b"\xff", b"\xc0\x80", b"\xed\xa0\x80", b"\xf4\x90\x80\x80"]
+
+
+def filler(n, chunk):
+    """n bytes of ASCII; with chunk: no token longer than chunk (the model's splitter is quadratic in the token length)"""
+    if not chunk or n <= chunk:
+        return b"a" * n
+    out = bytearray()
+    while len(out) < n:
+        out += b"b" * min(chunk, n - len(out))
+        if len(out) < n:
+            out += b" "
+    return bytes(out)
+
+
+def place(prefix, L, before, ch, rel, chunk, tail=b"zz"):
+    """prefix + filler + ch + tail, with `before` bytes of ch in front of byte offset L (counted from the start of the
+    request, rel='req', or from the end of the prefix, rel='arg'); None if it does not fit"""
+    n = L - before - (len(prefix) if rel == "req" else 0)
+    if n < 0:
+        return None
+    return prefix + filler(n, chunk) + ch + tail
+
+
+def long_requests(rng, quick):
+    """(kind, request) pairs around every boundary"""
+    out = []
+    forms = [(b"", "req"), (b"nope ", "req"), (b"ping ", "req"), (b"ping ", "arg"), (b"t-fail ", "req"), (b"clear all ", "arg"), (b'"ping" "', "req"), (b"t-args x ", "arg")]
+    for L in SMALL_BOUNDS + BIG_BOUNDS:
+        big = L > 4097
+        chunk = 700 if big else None
+        fs = forms if not big else ([forms[0], forms[2]] if quick and L > 9000 else forms[:5])
+        for fi, (prefix, rel) in enumerate(fs):
+            for (w, before) in STRADDLES:
+                if quick and L > 9000 and (w, before) not in ((2, 1), (3, 2), (4, 1), (4, 3)):
+                    continue
+                chars = CHARS[w] if (not quick and not big) else [CHARS[w][(L + fi) % len(CHARS[w])]]
+                for chs in chars:
+                    ch = chs.encode("utf-8")
+                    tail = b'zz"' if prefix.endswith(b'"') else b"zz"
+                    r = place(prefix, L, before, ch, rel, chunk, tail)
+                    if r is not None:
+                        out.append(("long-straddle", r))
+                    # the request ends right after / in the middle of that character
+                    if rel == "req" and not prefix.endswith(b'"') and not (quick and L > 9000 and fi):
+                        r = place(prefix, L, before, ch, rel, chunk, b"")
+                        if r is not None:
+                            out.append(("long-straddle", r))
+                            if before:
+                                out.append(("long-invalid", r[:L]))
+        for prefix, rel in (forms[0], forms[2], forms[7]) if not (quick and L > 9000) else (forms[0],):
+            for bad in BAD_AT[:4] if quick and L > 9000 else BAD_AT:
+                for before in (1,) if quick and L > 9000 else (0, 1):
+                    r = place(prefix, L, before, bad, rel, chunk, b"z")
+                    if r is not None:
+                        out.append(("long-invalid", r))
+    # single very long tokens (thorough only: ~1-5 s of model time each)
+    if not quick:
+        for L in (8192, 16384):
+            for prefix in (b"", b"ping "):
+                out.append(("long-token", place(prefix, L, 1, "ö".encode(), "req", None)))
+    return out
+
+
+def long_sessions(rng, quick):
+    reqs = long_requests(rng, quick)
+    out = []
+    small = [r for r in reqs if len(r[1]) <= 5000]
+    big = [r for r in reqs if len(r[1]) > 5000]
+    for group, size in ((small, 40), (big, 6)):
+        for i in range(0, len(group), size):
+            steps = [st(OP_REQ, k + 1, r) for k, (_, r) in enumerate(group[i:i + size])]
+            steps.append(st(OP_REQ, 9000, b"ping end"))
+            kinds = {k for k, _ in group[i:i + size]}
+            out.append(conc(steps, "session-long-invalid" if kinds == {"long-invalid"} else "session-long"))
+    return out
+
+
+def tok(rng):
+    return bytes(rng.choice(b"abcdefghijklmnopqrstuvwxyz0123456789") for _ in range(rng.randrange(1, 9)))
+
+
+def other_request(rng, k):
+    """a request that is answered at once and whose reply does not depend on anything else in flight"""
+    r = rng.random()
+    if r < 0.35:
+        return b"ping c%d " % k + tok(rng)
+    if r < 0.50:
+        return b"zz" + tok(rng) + (b" " + tok(rng) if rng.random() < 0.5 else b"")
+    if r < 0.60:
+        return rng.choice((b"clear bogus", b"clear", b"clear all h%d" % k, b"clear file h", b"shutdown now", b"wait x"))
+    if r < 0.70:
+        return rng.choice(INVALID_UTF8[:13])
+    if r < 0.80:
+        return rng.choice((b"t-fail e%d" % k, b"t-fail-empty", b"t-ok-empty", b"t-bin", b"t-args a%d" % k))
+    if r < 0.90:
+        return client_line(S("ping"), [S("c%d" % k)] + rand_vec(rng, 2))
+    return rng.choice(RAW_LINES[:26])
+
+
+def split_points(rng, req):
+    n = len(req)
+    cuts = sorted({rng.randrange(0, n + 1) for _ in range(rng.randrange(1, 4))}) if n else [0]
+    parts, last = [], 0
+    for c in cuts:
+        parts.append(req[last:c])
+        last = c
+    parts.append(req[last:])
+    return parts
+
+
+def pending_script(rng, kinds, nothers, closer=None, tcount=False):
+    """`kinds`: the pending connections to create; then `nothers` complete exchanges while all of them are pending;
+    then the pending ones are completed in a random order."""
+    steps, finish = [], []
+    k = 0
+    has_wait = False
+    for kind in kinds:
+        k += 1
+        body = b"ping p%d " % k + tok(rng) if rng.random() < 0.7 else rng.choice((b"zz-unknown p%d" % k, "räksmörgås p%d".encode() % k,
+                                                                                    b"t-args p%d" % k, b"ping \xff", b"t-fail p%d" % k))
+        if kind == "idle":            # connected, nothing sent yet
+            steps.append(st(OP_OPEN, k))
+            finish.append([st(OP_WRITE, k, body), st(OP_FIN, k), st(OP_AWAIT, k)])
+        elif kind == "half":          # connected, a part of the request sent (cut anywhere, also inside a character)
+            if rng.random() < 0.5:
+                body = client_line(S("ping"), [S("p%d" % k)] + rand_vec(rng, 3))
+            parts = split_points(rng, body)
+            steps += [st(OP_OPEN, k), st(OP_WRITE, k, parts[0])]
+            finish.append([st(OP_WRITE, k, p) for p in parts[1:]] + [st(OP_FIN, k), st(OP_AWAIT, k)])
+        elif kind == "unread":        # request complete, reply not read yet
+            steps.append(st(OP_SEND, k, body))
+            finish.append([st(OP_AWAIT, k)])
+        elif kind == "slow":          # a plugin that takes its time
+            steps.append(st(OP_SEND, k, b"t-slow p%d" % k))
+            finish.append([st(OP_PEEK, k), st(OP_RELEASE), st(OP_AWAIT, k)])
+        elif kind == "wait":          # kvarn's own `wait`: answers when the instance shuts down
+            steps.append(st(OP_SEND, k, b"wait"))
+            has_wait = True
+            finish.append([st(OP_PEEK, k)])
+        elif kind == "drop":          # a client that goes away in the middle of its request
+            steps += [st(OP_OPEN, k), st(OP_WRITE, k, b"ping gone"[:rng.randrange(0, 10)])]
+            finish.append([st(OP_DROP, k)])
+    rng.shuffle(steps) if rng.random() < 0.3 else None
+    base = 100
+    for n in range(nothers):
+        if tcount and rng.random() < 0.25:
+            steps.append(st(OP_REQ, base + n, b"t-count"))
+        else:
+            steps.append(st(OP_REQ, base + n, other_request(rng, base + n)))
+        if closer is not None and n == nothers // 2:
+            steps.append(st(OP_REQ, 900, closer))
+    rng.shuffle(finish)
+    for f in finish:
+        steps += f
+    steps.append(st(OP_REQ, 9000, b"ping end"))
+    if has_wait:
+        steps.append(st(OP_SHUTDOWN))
+        for i, kind in enumerate(kinds):
+            if kind == "wait":
+                steps.append(st(OP_AWAIT, i + 1))
+        steps.append(st(OP_REQ, 9001, b"ping after"))
+    return steps
+
+
+PENDING_KINDS = ("idle", "half", "unread", "slow", "wait", "drop")
+
+
+def conc_sessions(rng, quick):
+    out = []
+    # the regression scenario: `wait` pending, then ping / unknown / clear, then shutdown
+    out.append(conc([st(OP_REQ, 1, b"ping one"), st(OP_REQ, 2, b"no-such-command"), st(OP_SEND, 3, b"wait")]
+                    + [st(OP_REQ, 10 + n, b'ping "while waiting" %d' % n) for n in range(3)]
+                    + [st(OP_REQ, 20, b"clear bogus"), st(OP_PEEK, 3), st(OP_SHUTDOWN), st(OP_AWAIT, 3), st(OP_REQ, 21, b"ping after")], "conc-pending"))
+    for kind in PENDING_KINDS:
+        for n in (1, 3):
+            out.append(conc(pending_script(rng, [kind] * n, 4), "conc-pending"))
+    out.append(conc(pending_script(rng, list(PENDING_KINDS), 6, tcount=True), "conc-pending"))
+    for c in CLOSERS[:4]:
+        out.append(conc(pending_script(rng, ["idle", "half", "unread", "slow"], 4, closer=c), "conc-pending-close"))
+    for _ in range(20 if quick else 600):
+        kinds = [rng.choice(PENDING_KINDS) for _ in range(rng.randrange(1, 7))]
+        closer = rng.choice(CLOSERS) if rng.random() < 0.2 else None
+        out.append(conc(pending_script(rng, kinds, rng.randrange(1, 8), closer=closer, tcount=True),
+                        "conc-pending-close" if closer else "conc-pending"))
+    # many connections pending at once
+    for n in ((40,) if quick else (40, 200, 400)):
+        out.append(conc(pending_script(rng, [rng.choice(("idle", "half", "unread", "slow")) for _ in range(n)], 5), "conc-many-pending"))
+    # hundreds of sequential exchanges and reconnects (connections opened and dropped without a request in between)
+    for n in ((300,) if quick else (300, 1000, 2500)):
+        steps = []
+        for i in range(n):
+            r = i % 10
+            if r == 3:
+                steps.append(st(OP_REQ, i, b"t-count"))
+            elif r == 5:
+                steps += [st(OP_OPEN, i), st(OP_WRITE, i, b"ping dropped"), st(OP_DROP, i)]
+            elif r == 7:
+                steps.append(st(OP_REQ, i, b"zz%d" % i))
+            elif r == 8:
+                steps.append(st(OP_REQ, i, b"ping \xe2\x82"))
+            else:
+                steps.append(st(OP_REQ, i, b"ping n%d" % i))
+        steps.append(st(OP_REQ, 90000, b"ping end"))
+        out.append(conc(steps, "conc-sequential"))
+    return out
+
+
+# ---- oracles that need no model ----------------------------------------------------------------------
+# Derived from the text of the property and from the script alone (so they also work on a replay file):
+#  * every request gets a non-empty reply that begins with `ok` or `error` within the bounded wait (requests that are
+#    meant to wait -- `wait` before the shutdown, `t-slow` before the release -- excepted), on its own connection;
+#  * not UTF-8 / unknown command => `error`; `ping` echoes its arguments exactly; the test plugins echo theirs;
+#    the counter plugin counts every `t-count` exactly once;
+#  * a connection is refused only after a request that may close the socket was sent (or the instance was shut down).
+import re
+
+KNOWN_COMMANDS = {b"t-args", b"t-fail", b"t-ok-empty", b"t-fail-empty", b"t-close", b"t-fail-close", b"t-bin", b"t-count", b"", b"reload", b"wait",
+                  b"shutdown", b"ping", b"clear", b"t-slow"}
+PLAIN = rb"[A-Za-z0-9_.:/-]+"
+RE_PLAIN_CALL = re.compile(rb"^(ping|t-args|t-fail|t-slow)((?: " + PLAIN + rb")*)$")
+RE_ENCODED_PING = re.compile(rb'^"ping"((?: "(?:[^"\\]|\\["\\])*")+)$', re.S)
+RE_FIRST_WORD = re.compile(rb"^([^ \"'\\]+)(?: |$)")
+
+
+def may_close(req):
+    return b"close" in req or b"shutdown" in req
+
+
+def expected_reply(req):
+    """('exact', bytes) | ('prefix', bytes) | None, from the request alone"""
+    try:
+        req.decode("utf-8")
+    except UnicodeDecodeError:
+        return ("prefix", b"error")
+    m = RE_PLAIN_CALL.match(req)
+    if m:
+        name, args = m.group(1), m.group(2).split()
+        if name == b"ping":
+            return ("exact", b"ok" + b"".join(b' "' + a + b'"' for a in args))
+        status = b"error " if name == b"t-fail" else b"ok "
+        return ("exact", status + name + b"\x1f" + b"".join(a + b"\x1f" for a in args))
+    m = RE_ENCODED_PING.match(req)
+    if m:
+        return ("exact", b"ok" + m.group(1))
+    m = RE_FIRST_WORD.match(req)
+    if m and m.group(1) not in KNOWN_COMMANDS:
+        return ("prefix", b"error")
+    return None
+
+
+def check_reply(req, reply, what):
+    """reply: parsed xval of one reply.  Returns a reason or None."""
+    t, v = reply
+    if t != "L" or not v or v[0][0] != "N":
+        return "%s: malformed harness output" % what
+    code = v[0][1]
+    if code != 0:
+        return "%s: %s" % (what, {1: "the connection was refused although no request that closes the socket had been sent",
+                                  2: "I/O error on the connection", 3: "no reply within the bounded wait",
+                                  5: "no such connection"}.get(code, "outcome %d" % code))
+    data = v[1][1]
+    if not data:
+        return "%s: EMPTY reply (the connection was dropped without an answer)" % what
+    if not (data.startswith(b"ok") or data.startswith(b"error")):
+        return "%s: the reply %r begins with neither `ok` nor `error`" % (what, data[:60])
+    e = expected_reply(req)
+    if e is not None:
+        if e[0] == "exact" and data != e[1]:
+            return "%s: reply %r, expected %r (the arguments come back exactly, on the connection that sent them)" % (what, data[:200], e[1][:200])
+        if e[0] == "prefix" and not data.startswith(e[1]):
+            return "%s: reply %r, expected an `%s` reply" % (what, data[:60], e[1].decode())
+    return None
+
+
+def show(req):
+    return repr(req if len(req) <= 120 else req[:70] + b"..." + req[-30:]) + " (%d bytes)" % len(req)
+
+
+def conc_oracle(steps, outputs):
+    reqs, late, blocked_ok = {}, set(), set()
+    closing = shutdown = gate = False
+    count = 0
+    oi = 0
+    inflight = []
+    for step in steps:
+        op, k = step[1][0][1], step[1][1][1]
+        b = step[1][2][1] if len(step[1]) > 2 else b""
+        if op in (OP_OPEN, OP_REQ, OP_SEND):
+            reqs[k] = b""
+            if closing:
+                late.add(k)
+        if op in (OP_WRITE, OP_REQ, OP_SEND) and k in reqs:
+            reqs[k] += b
+        if op in (OP_FIN, OP_REQ, OP_SEND, OP_DROP) and may_close(reqs.get(k, b"")):
+            closing = True
+        if op == OP_SHUTDOWN:
+            closing = shutdown = True
+        if op == OP_RELEASE:
+            gate = True
+        if op in (OP_OPEN, OP_SEND):
+            inflight.append(k)
+        if op in (OP_AWAIT, OP_REQ, OP_PEEK):
+            if oi >= len(outputs):
+                return "the harness produced %d outputs, the script has more reading steps" % len(outputs)
+            o = outputs[oi]
+            oi += 1
+            if o[0] != "L" or len(o[1]) != 2 or o[1][0] != ("N", k):
+                return "output %d is not for connection %d" % (oi, k)
+            reply = o[1][1]
+            req = reqs.get(k, b"")
+            code = reply[1][0][1] if reply[0] == "L" and reply[1] and reply[1][0][0] == "N" else None
+            others = [j for j in inflight if j != k]
+            what = "connection %d, request %s%s" % (k, show(req), (" while connection(s) %s were pending" % others[:8]) if others and op == OP_REQ else "")
+            waits = (req.strip() == b"wait" and not shutdown) or (req.startswith(b"t-slow") and not gate)
+            if op == OP_PEEK:
+                if code == 4 and len(reply[1]) == 1:
+                    continue
+                if code == 4:
+                    return "%s: a reply was begun (%r) but the connection was not closed" % (what, reply[1][1][1][:60])
+            if code == 3 and waits:
+                continue
+            if code == 1 and k in late:
+                continue
+            why = check_reply(req, reply, what)
+            if why:
+                return why
+            if op == OP_REQ and req == b"t-count":
+                data = reply[1][1][1]
+                if data != b"ok %d" % count:
+                    return "%s: the counter plugin answered %r, expected %r (every request is handled exactly once)" % (what, data, b"ok %d" % count)
+                count += 1
+            if op in (OP_AWAIT, OP_REQ) and k in inflight:
+                inflight.remove(k)
+        if op == OP_DROP and k in inflight:
+            inflight.remove(k)
+    return None
+
+
+def extra_oracle(c, i):
+    if c.comp == "ctl.conc":
+        out = xparse(i)
+        if out[0] != "L" or (out[1] and out[1][0][0] == "N"):
+            return "the harness could not run the session: " + i[:80]
+        return conc_oracle(c.x[1], out[1])
+    if c.comp == "ctl.session":
+        out = xparse(i)
+        if out[0] != "L" or (out[1] and out[1][0][0] == "N"):
+            return "the harness could not run the session: " + i[:80]
+        closing = False
+        for n, (r, o) in enumerate(zip(c.x[1], out[1])):
+            req = r[1]
+            if not (closing and o == ("L", [("N", 1)])):
+                why = check_reply(req, o, "request %d of the session, %s" % (n, show(req)))
+                if why:
+                    return why
+            closing = closing or may_close(req)
+    return None
+
+
 def utf8_cases(rng, n):
     out = []
     for b in INVALID_UTF8 + VALID_EDGE_UTF8 + RAW_LINES:
@@ -313,6 +692,8 @@ def generate(rng, tier):
     cases = []
     quick = tier == "quick"
     cases += sessions(rng, 12 if quick else 400)
+    cases += conc_sessions(rng, quick)
+    cases += long_sessions(rng, quick)
     cases += utf8_cases(rng, 1500 if quick else 60000)
     # corpus: the confirmed defect and its neighbours first
     for l in ([()], [(), ()], [(A,), ()], [(), (A,)], [(A,), (), (A,)], [], [(SP,)], [(DQ,)], [(BS,)], [(SQ,)], [(BS, DQ)], [(DQ, BS)]):
